@@ -161,3 +161,52 @@ def special_ip4(rng):
                            bytes([224, 0, 0, rng.below(256)]), bytes([172, 16 + rng.below(16), 1, 1]), bytes([192, 0, 2, 1]),
                            bytes([198, 18, 0, 1]), bytes([240, 0, 0, 1]), bytes([0, 0, 0, 1]), bytes([127, 255, 255, 254])])
     return rng.choice([bytes(4), bytes([255] * 4), bytes([127, 0, 0, 1]), bytes([10, 0, 0, rng.below(256)]), bytes([192, 168, 1, 1])])
+
+
+def ip6_classes(rng):
+    """one representative of every structured IPv6 class the streams know (incl. tuples the source dictionary found
+    and the baseline tree did not have); used for the deterministic class x class product of every address-carrying site"""
+    from . import dictionary
+    r4 = rng.bytes(4)
+    out = [
+        bytes(16), bytes(15) + b"\x01", bytes([255] * 16),
+        bytes(10) + b"\xff\xff" + r4, bytes(10) + b"\xff\xff" + bytes([127, 0, 0, 1]), bytes(10) + b"\xff\xff" + bytes(4),
+        bytes(12) + r4,
+        b"\xfe\x80" + bytes(6) + rng.bytes(8), b"\xfe\x80\x00" + bytes([1 + rng.below(255)]) + bytes(4) + rng.bytes(8), b"\xfe\xbf" + rng.bytes(14),
+        b"\x20\x01\x0d\xb8" + rng.bytes(12), b"\x2a" + rng.bytes(15), rng.bytes(16),
+    ]
+    for p in WELL_KNOWN_PREFIXES[:11]:
+        out.append(p + rng.bytes(16 - len(p)))
+    d = dictionary.harvest()
+    for t in d["novel_tuples"][:6]:
+        if all(v < 65536 for v in t):
+            gs = (list(t)[:8] + [rng.below(65536) for _ in range(8)])[:8]
+            out.append(b"".join(bytes([g >> 8, g & 255]) for g in gs))
+        if all(v < 256 for v in t):
+            out.append(bytes((list(t)[:16] + list(rng.bytes(16)))[:16]))
+    for v in [v for v in d["novel_ints"] if v < 65536][:4]:
+        out.append(bytes([v >> 8, v & 255]) + rng.bytes(14))
+    return out
+
+
+def ip4_classes(rng):
+    from . import dictionary
+    out = [bytes(4), bytes([255] * 4), bytes([127, 0, 0, 1]), bytes([10, 0, 0, rng.below(256)]), bytes([192, 168, 1, 1]),
+           bytes([169, 254, 1, 2]), bytes([100, 64, 0, 1]), bytes([224, 0, 0, 1]), bytes([172, 16, 1, 1]), bytes([192, 0, 2, 1]),
+           bytes([198, 18, 0, 1]), bytes([240, 0, 0, 1]), bytes([0, 0, 0, 1]), rng.bytes(4)]
+    d = dictionary.harvest()
+    for t in d["novel_tuples"][:6]:
+        if all(v < 256 for v in t):
+            out.append(bytes((list(t)[:4] + list(rng.bytes(4)))[:4]))
+    return out
+
+
+def class_pairs(rng, fam, k, n):
+    """shard k of n of the ordered pairs (source class, destination class) for IPv4 (fam 4) or IPv6 (fam 6)"""
+    cs = ip4_classes(rng) if fam == 4 else ip6_classes(rng)
+    idx = 0
+    for a in cs:
+        for b in cs:
+            if idx % n == k:
+                yield a, b
+            idx += 1
